@@ -415,7 +415,36 @@ pub fn gen_chaos(prop: &str, seed: u64) -> Case {
                 }
             }
             97 => case.push(GK::AfterPolls(rng.log_uniform(1, 2_000))),
-            _ => case.push(GK::Delay(rng.log_uniform(1_000, 20_000_000))),
+            98 => {
+                // parameter mixes: a depth with a time, `infinite` with a time (no timer then), tokens the engine ignores
+                let polls = rng.log_uniform(1, 3_000);
+                let mt = movetime_for(&case, polls);
+                match rng.below(4) {
+                    0 => case.raw(format!("go depth {} movetime {}", rng.range(1, max_depth_for(class)), mt)),
+                    1 => {
+                        case.raw(format!("go infinite movetime {}", mt));
+                        unbounded = true;
+                    }
+                    2 => case.raw(format!("go ponder movetime {} searchmoves e2e4 d2d4", mt)),
+                    _ => case.raw(format!("go movetime {} depth {} nodes 100000 mate 3", mt, rng.range(1, max_depth_for(class)))),
+                }
+                asked = true;
+            }
+            _ => {
+                if rng.chance(1, 3) {
+                    // the same cheap command very many times (counts around powers of two)
+                    let n = *rng.pick(&[127u32, 128, 129, 255, 256, 257, 300]);
+                    let c = *rng.pick(&["isready", "ucinewgame", "stop", "uci"]);
+                    for _ in 0..n {
+                        case.raw(c);
+                    }
+                    if c == "ucinewgame" || c == "stop" {
+                        unbounded = false;
+                    }
+                } else {
+                    case.push(GK::Delay(rng.log_uniform(1_000, 20_000_000)));
+                }
+            }
         }
     }
     if unbounded {
